@@ -193,7 +193,8 @@ def run(ck, only=None):
         fam_cpp = [c for c in fam_cpp if c.cid == only.get("cid")]
     opts = OPTIONS if not only else [o for o in OPTIONS + SHAPE_OPTIONS if o[0] == only.get("opt")]
     if ck.tier == "quick" and not only:
-        opts = [o for k, o in enumerate(OPTIONS) if k <= 1 or (k + ck.seed) % 3 == 0]
+        # rows that change HOW a type is emitted (not only which traits it carries) are in every quick run
+        opts = [o for k, o in enumerate(OPTIONS) if k <= 1 or (k + ck.seed) % 3 == 0 or o[0] in ("no-copy-debug", "union-wrapper")]
     if not only:
         opts = opts + SHAPE_OPTIONS
     shape_rows = {o[0] for o in SHAPE_OPTIONS}
@@ -210,7 +211,8 @@ def run(ck, only=None):
             if oname != "default":
                 cases = [c for c in fam if c.cid not in failed_default]
                 if ck.tier == "quick" and lang == "c":
-                    cases = [c for k, c in enumerate(cases) if k % 12 == 0 or c.cid.startswith("c-shape")]
+                    cases = [c for k, c in enumerate(cases) if k % 12 == 0 or c.cid.startswith("c-shape") or
+                             (oname in ("no-copy-debug", "union-wrapper") and getattr(c, "kind", "") == "union" and len(c.atoms) == 1)]
                 elif ck.tier == "quick":
                     cases = [c for k, c in enumerate(cases) if k % 3 == 0 or c.cid.startswith("cxx-shape")]
             batches = [(f"{lang}_{oname.replace('.', '_')}_{i // BATCH}", cases[i:i + BATCH]) for i in range(0, len(cases), BATCH)]
